@@ -237,7 +237,7 @@ func TestC14(t *testing.T) {
 		}
 	})
 	// bit length crossing 2^32: 2^29+3 bytes, streamed from a 1 MiB buffer
-	m.Each("long", len(vs), func(i int64, r *rand.Rand) {
+	m.Cases("long", len(vs), func(i int64, r *rand.Rand) { // md4 in batch 0, ripemd160 in batch 1
 		v := vs[i]
 		buf := mon.Bytes(r, 1<<20)
 		tail := mon.Bytes(r, 3)
